@@ -1,6 +1,7 @@
 import Enc.Model.Thrift
 import Enc.Spec.Thrift
 import Enc.Lemmas.ThriftSpec
+import Enc.Lemmas.ThriftAccept
 /-!
 # C13 — thrift bytes follow the binary and compact protocol specifications
 Property theorems only. `Spec.Thrift` is the reference (written from the Apache specifications).
@@ -88,5 +89,24 @@ theorem encode_binary_eq_spec_mod (s : Bool) (ty : Ty) (v : Val) (h : Lemmas.Thr
 theorem encB_is_the_specification (s : Bool) (ty : Ty) (v : Val) :
     Lemmas.ThriftSpec.encB Spec.Thrift.binCode [0] ty v = Spec.Thrift.encode (.binary s) ty v :=
   Lemmas.ThriftSpec.encB_spec s ty v
+
+/-! ## every conformant compact encoding is accepted (proofs in Enc/Lemmas/ThriftAccept*.lean; 7 files)
+
+`Conf ty v bytes` is the SET of encodings the compact specification permits for a value: any varint representation up
+to 10 bytes (minimal or padded), list/set headers in short (< 15) or long form, the empty map as a varint 0, field
+headers in delta short form (when 0 < id − previous ≤ 15) or long form, struct fields in ANY order, optional fields
+holding their default present or absent, bool element and map key/value types announced as 1 or 2 — recursively. -/
+
+open Lemmas.ThriftAccept in
+/-- **MAIN (second half).** Every specification-conformant compact encoding of a value of the universe
+(`U = ok ∧ RTS`) is accepted by `Unmarshal`, strict or not, with the same result as the canonical encoding. -/
+theorem accept_unmarshal (strict : Bool) (ty : Ty) (v : Val) (h : U ty v = true) (bs : Bytes) (hc : Conf ty v bs) :
+    Model.Thrift.unmarshal .compact strict ty bs = .ok (Lemmas.ThriftRoundTrip.norm ty v) :=
+  Lemmas.ThriftAccept.accept_unmarshal strict ty v h bs hc
+
+open Lemmas.ThriftAccept in
+/-- the canonical encoding (= what Marshal writes) is a member of the set -/
+theorem conf_marshal (ty : Ty) (v : Val) (h : U ty v = true) : Conf ty v (Model.Thrift.marshal .compact ty v) :=
+  Lemmas.ThriftAccept.conf_marshal ty v h
 
 end Enc.Props.C13
